@@ -21,7 +21,11 @@ MANIFEST = {
             "the listed finding classes and is refuted (witness theorems) inside each; model tied to the code by a "
             "PRINT correspondence (text, predicted round trip, finding classes) exhaustive over all parent/child "
             "combinations of depth 2 and sampled deeper, and the property itself searched on the real parser / "
-            "formatter / CLI binary (all depth-3 combinations, random programs with comments, widths 1..120)",
+            "formatter / CLI binary (all depth-3 combinations, random programs with comments, widths 1..120). "
+            "Character level, first step (C07_atoms_relex, over the PEG model of the regenerated grammar that C10 "
+            "compares pair-for-pair with pest's parser): the text of every atom the printer emits — string literal in "
+            "the quote style quote_string chooses (any UTF-8-shaped content, any continuation), identifier, true / false "
+            "/ null, any text of the number rule's language — re-lexes to exactly that atom's pair with the full span",
     "note": "trusted: Coq kernel + vm_compute; translate/prec_table.py; hand transcription of ast_to_source.rs and of "
             "pest's Pratt parser (both validated by correspondence on every run); the character level of the grammar "
             "(token lexing, NEWLINE admission in the multi-line layouts of formatter.rs) is decided by search on the "
@@ -205,6 +209,7 @@ def main(argv):
         cli = c.build_cli("release")
         c.regen_builtins(h)
         c10.regen_prec(h)
+        c.regen_all(h)            # Properties/C07.v (AtomLayer) also needs gen/Grammar.v, IdentRules.v, NumGrammar.v
     except c.BrokenTie as e:
         res.tie_broken(e.what, e.detail)
         return res.finish()
